@@ -61,7 +61,8 @@ Record sst := mkst {
   nextid : N;
   inputs : list jv;
   cells : list (N * tv);
-  repsens : bool             (* the input holds numbers whose Go representation the model cannot see *)
+  repsens : bool;            (* the input holds numbers whose Go representation the model cannot see *)
+  steps : N                  (* remaining evaluation steps: bounds the total WORK (fuel bounds the depth) *)
 }.
 
 Definition M (A : Type) := sst -> (A + exn) * sst.
@@ -80,10 +81,10 @@ Definition skipM {A} (why : string) : M A := raise (XSkip (codes why)).
 Definition K := tv -> pst -> M unit.
 
 Definition set_cells (s : sst) (c : list (N * tv)) : sst :=
-  mkst (outs s) (nout s) (cap s) (nextid s) (inputs s) c (repsens s).
+  mkst (outs s) (nout s) (cap s) (nextid s) (inputs s) c (repsens s) (steps s).
 
 Definition fresh : M N :=
-  fun s => (inl (nextid s), mkst (outs s) (nout s) (cap s) (nextid s + 1)%N (inputs s) (cells s) (repsens s)).
+  fun s => (inl (nextid s), mkst (outs s) (nout s) (cap s) (nextid s + 1)%N (inputs s) (cells s) (repsens s) (steps s)).
 
 Fixpoint cell_lookup (cs : list (N * tv)) (id : N) : option tv :=
   match cs with
@@ -111,16 +112,23 @@ Definition get_cell (id : N) : M tv :=
 Definition set_cell (id : N) (v : tv) : M unit := fun s => (inl tt, set_cells s (cell_update (cells s) id v)).
 Definition free_cell (id : N) : M unit := fun s => (inl tt, set_cells s (cell_remove (cells s) id)).
 
+(* one unit of work; the case is declined when the budget is exhausted *)
+Definition tick : M unit :=
+  fun s => match steps s with
+           | N0 => (inr (XSkip (codes "steps")), s)
+           | _ => (inl tt, mkst (outs s) (nout s) (cap s) (nextid s) (inputs s) (cells s) (repsens s) (N.pred (steps s)))
+           end.
+
 Definition next_input : M (option jv) :=
   fun s => match inputs s with
            | [] => (inl None, s)
-           | v :: r => (inl (Some v), mkst (outs s) (nout s) (cap s) (nextid s) r (cells s) (repsens s))
+           | v :: r => (inl (Some v), mkst (outs s) (nout s) (cap s) (nextid s) r (cells s) (repsens s) (steps s))
            end.
 
 (* the top-level continuation: record the output; Stop once the cap is reached *)
 Definition emit : K :=
   fun v _ s =>
-    let s' := mkst (fst v :: outs s) (S (nout s)) (cap s) (nextid s) (inputs s) (cells s) (repsens s) in
+    let s' := mkst (fst v :: outs s) (S (nout s)) (cap s) (nextid s) (inputs s) (cells s) (repsens s) (steps s) in
     if Nat.leb (cap s) (S (nout s)) then (inr XStop, s') else (inl tt, s').
 
 Definition lift (r : nres) (k : jv -> M unit) : M unit :=
@@ -467,6 +475,50 @@ Definition range_budget : nat := N.to_nat 20000.
 (* ------------------------------------------------------------------------------------------ *)
 (* the evaluator *)
 
+(* ------------------------------------------------------------------------------------------ *)
+(* generic control structures of the evaluator (their monotonicity is proved once in SemProofs.v) *)
+
+(* a left-to-right loop over a syntactic list in continuation-passing style: [f a s kk] handles one
+   element in state s and calls kk with the next state once per way of continuing (generators!) *)
+Fixpoint cps_fold {A S : Type} (f : A -> S -> (S -> M unit) -> M unit) (l : list A) (s : S) (kend : S -> M unit) : M unit :=
+  match l with
+  | [] => kend s
+  | a :: r => f a s (fun s' => cps_fold f r s' kend)
+  end.
+
+(* ?// : try the patterns in order; all but the last are protected by or_else *)
+Fixpoint alts_loop {P : Type} (run : P -> M unit) (pats : list P) : M unit :=
+  match pats with
+  | [] => ret tt
+  | [p] => run p
+  | p :: rest => or_else (run p) (alts_loop run rest)
+  end.
+
+(* if / elif ... / else: [cond c kk] evaluates a condition and calls kk once per output *)
+Fixpoint if_chain {Q : Type} (cond : Q -> (bool -> M unit) -> M unit) (branch : Q -> M unit) (c th : Q)
+         (elifs : list (Q * Q)) (els : M unit) : M unit :=
+  cond c (fun b =>
+    if b then branch th
+    else match elifs with
+         | (c2, t2) :: r => if_chain cond branch c2 t2 r els
+         | [] => els
+         end).
+
+(* opobject: every key must be a string; a later pair wins *)
+Fixpoint build_object (pairs : list (jv * jv)) (o : list (bytes * jv)) : option (list (bytes * jv)) :=
+  match pairs with
+  | [] => Some o
+  | (VStr ks, x) :: r => build_object r (obj_set o ks x)
+  | _ :: _ => None
+  end.
+
+(* string interpolation "\(p0)..\(pn)" is ((p0 + p1) + ...) + pn *)
+Fixpoint add_left (vals : list jv) (acc : jv) : nres :=
+  match vals with
+  | [] => NOk acc
+  | x :: r => match binop_add acc x with NOk w => add_left r w | e => e end
+  end.
+
 Section Eval.
 Variable builtins : list funcdef.
 
@@ -521,6 +573,7 @@ Record evals := mk_evals {
 Definition syn_depth : nat := N.to_nat 4000.
 
 Definition step_eval_q (E : evals) (rho : env) (q : query) (v : tv) (ps : pst) (k : K) : M unit :=
+  tick ;;
   match q with
   | Query imports fds tm lq oq rq pats =>
     match imports with
@@ -541,15 +594,7 @@ Definition step_eval_q (E : evals) (rho : env) (q : query) (v : tv) (ps : pst) (
                 let allvars := flat_map (pattern_vars syn_depth) pats in
                 let rho0 := fold_left (fun acc nm => BVar nm (plain VNull) :: acc) allvars rho in
                 ev_q E rho l v None (fun x _ =>
-                  (fix alts (ps_ : list pattern) : M unit :=
-                     match ps_ with
-                     | [] => ret tt
-                     | [p] => ev_bindpat E (match pats with [_] => rho | _ => rho0 end) p x None
-                                (fun rho' _ => ev_q E rho' r v ps k)
-                     | p :: rest =>
-                         or_else (ev_bindpat E rho0 p x None (fun rho' _ => ev_q E rho' r v ps k))
-                                 (alts rest)
-                     end) pats)
+                  alts_loop (fun p => ev_bindpat E rho0 p x None (fun rho' _ => ev_q E rho' r v ps k)) pats)
             end
         | OpComma => ev_q E rho l v ps k ;; ev_q E rho r v ps k
         | OpAlt =>
@@ -663,48 +708,47 @@ Definition step_bind_pat (E : evals) (rho : env) (p : pattern) (x : tv) (ps : ps
     match name, arr, obj with
     | _ :: _, _, _ => kb (BVar name x :: rho) ps
     | [], _ :: _, _ =>
-        (fix go (l : list pattern) (i : Z) (rho : env) (ps : pst) : M unit :=
-           match l with
-           | [] => kb rho ps
-           | pi :: r =>
-               lift (fn_indexarray (fst x) i) (fun w =>
-                 nav ps x (VInt i) w (fun wv ps' =>
-                   ev_bindpat E rho pi wv ps' (fun rho' ps'' => go r (i + 1) rho' ps'')))
-           end) arr 0 rho ps
+        cps_fold (fun (pi : pattern) (st : Z * env * pst) kk =>
+                    let '(i, rho, ps) := st in
+                    lift (fn_indexarray (fst x) i) (fun w =>
+                      nav ps x (VInt i) w (fun wv ps' =>
+                        ev_bindpat E rho pi wv ps' (fun rho' ps'' => kk (i + 1, rho', ps'')))))
+                 arr (0, rho, ps) (fun st => kb (snd (fst st)) (snd st))
     | [], [], _ :: _ =>
-        (fix go (l : list patternobject) (rho : env) (ps : pst) : M unit :=
-           match l with
-           | [] => kb rho ps
-           | PatternObject key kstr kq val :: r =>
-               (* what to do with the value found under the key *)
-               let with_value (varname : option bytes) (wv : tv) (ps' : pst) : M unit :=
-                 let rho1 := match varname with Some nm => BVar nm wv :: rho | None => rho end in
-                 match val with
-                 | Some pv => ev_bindpat E rho1 pv wv ps' (fun rho' ps'' => go r rho' ps'')
-                 | None => go r rho1 ps'
-                 end in
-               let const_key (kname : bytes) (varname : option bytes) : M unit :=
-                 lift (fn_index2 (fst x) (VStr kname)) (fun w =>
-                   nav ps x (VStr kname) w (with_value varname)) in
-               let dyn_key (kv : tv) (ps1 : pst) : M unit :=
-                 lift (fn_index2 (fst x) (fst kv)) (fun w =>
-                   nav ps1 x (fst kv) w (with_value None)) in
-               match key with
-               | _ :: _ =>
-                   if is_var_name key then const_key (strip_dollar key) (Some key) else const_key key None
-               | [] =>
-                   match kstr, kq with
-                   | Some (JString s None), _ =>
-                       match s with
-                       | _ :: _ => const_key s None
-                       | [] => dyn_key (plain (VStr [])) ps
-                       end
-                   | Some js, _ => ev_string E rho js None x ps dyn_key
-                   | None, Some q => ev_q E rho q x ps dyn_key
-                   | None, None => skipM "malformed-pattern"
-                   end
-               end
-           end) obj rho ps
+        cps_fold (fun (po : patternobject) (st : env * pst) kk =>
+                    let '(rho, ps) := st in
+                    match po with
+                    | PatternObject key kstr kq val =>
+                      (* what to do with the value found under the key *)
+                      let with_value (varname : option bytes) (wv : tv) (ps' : pst) : M unit :=
+                        let rho1 := match varname with Some nm => BVar nm wv :: rho | None => rho end in
+                        match val with
+                        | Some pv => ev_bindpat E rho1 pv wv ps' (fun rho' ps'' => kk (rho', ps''))
+                        | None => kk (rho1, ps')
+                        end in
+                      let const_key (kname : bytes) (varname : option bytes) : M unit :=
+                        lift (fn_index2 (fst x) (VStr kname)) (fun w =>
+                          nav ps x (VStr kname) w (with_value varname)) in
+                      let dyn_key (kv : tv) (ps1 : pst) : M unit :=
+                        lift (fn_index2 (fst x) (fst kv)) (fun w =>
+                          nav ps1 x (fst kv) w (with_value None)) in
+                      match key with
+                      | _ :: _ =>
+                          if is_var_name key then const_key (strip_dollar key) (Some key) else const_key key None
+                      | [] =>
+                          match kstr, kq with
+                          | Some (JString s None), _ =>
+                              match s with
+                              | _ :: _ => const_key s None
+                              | [] => dyn_key (plain (VStr [])) ps
+                              end
+                          | Some js, _ => ev_string E rho js None x ps dyn_key
+                          | None, Some q => ev_q E rho q x ps dyn_key
+                          | None, None => skipM "malformed-pattern"
+                          end
+                      end
+                    end)
+                 obj (rho, ps) (fun st => kb (fst st) (snd st))
     | [], [], [] => skipM "invalid-pattern"
     end
   end.
@@ -721,15 +765,15 @@ Definition step_eval_string (E : evals) (rho : env) (s : jstring) (fmt : option 
         | Query _ _ (Some (Term (TString _) _)) _ _ _ _ => ev_q E rho q v ps kk
         | _ => ev_q E rho q v ps (fun x ps' => ev_call E rho f [] x ps' kk)
         end in
-      (fix go (rparts : list query) (ps : pst) (kk : K) : M unit :=
-         match rparts with
-         | [] => kk (plain (VStr [])) ps   (* no parts: cannot be produced by the parser *)
-         | [q] => eval_part q ps kk
-         | q :: r =>
-             (* q is the LAST part: the right operand of the outermost +, evaluated first *)
-             eval_part q ps (fun rv ps1 =>
-               go r ps1 (fun lv_ ps2 => lift (binop_add (fst lv_) (fst rv)) (fun w => kk (plain w) ps2)))
-         end) (rev parts) ps k
+      (* the LAST part is the right operand of the outermost +, evaluated first (outermost loop);
+         the additions happen after all parts are evaluated, innermost first *)
+      cps_fold (fun (q : query) (st : list jv * pst) kk =>
+                  eval_part q (snd st) (fun x ps' => kk (fst x :: fst st, ps')))
+               (rev parts) ([], ps)
+               (fun st => match fst st with
+                          | [] => k (plain (VStr [])) (snd st)   (* no parts: cannot be produced by the parser *)
+                          | v0 :: rest => lift (add_left rest v0) (fun w => k (plain w) (snd st))
+                          end)
   end.
 
 
@@ -768,33 +812,26 @@ Definition step_eval_t (E : evals) (rho : env) (t : term) (v : tv) (ps : pst) (k
           match kvs with
           | [] => k (plain (VObj [])) ps
           | _ =>
-            (fix go (l : list objectkeyval) (acc : list (jv * jv)) (ps : pst) : M unit :=
-               match l with
-               | [] =>
-                   (* opobject: every key must be a string; a later pair wins *)
-                   (fix build (ps_ : list (jv * jv)) (o : list (bytes * jv)) : M unit :=
-                      match ps_ with
-                      | [] => k (plain (VObj o)) ps
-                      | (VStr ks, x) :: r => build r (obj_set o ks x)
-                      | _ :: _ => raise (XErr O EObjectKeyNotString None)
-                      end) (rev acc) []
-               | ObjectKeyVal key kstr kq val :: r =>
+            cps_fold (fun (okv : objectkeyval) (st : list (jv * jv) * pst) kk =>
+              let '(acc, ps) := st in
+              match okv with
+              | ObjectKeyVal key kstr kq val =>
                    let with_key (kx : jv) (ps1 : pst) : M unit :=
                      match val with
-                     | Some qv => ev_q E rho qv v ps1 (fun x ps2 => go r ((kx, fst x) :: acc) ps2)
+                     | Some qv => ev_q E rho qv v ps1 (fun x ps2 => kk ((kx, fst x) :: acc, ps2))
                      | None => skipM "malformed-object"
                      end in
                    match key with
                    | _ :: _ =>
                        if is_var_name key then
                          match val with
-                         | None => ev_call E rho key [] v ps (fun x ps1 => go r ((VStr (strip_dollar key), fst x) :: acc) ps1)
+                         | None => ev_call E rho key [] v ps (fun x ps1 => kk ((VStr (strip_dollar key), fst x) :: acc, ps1))
                          | Some _ => ev_call E rho key [] v ps (fun x ps1 => with_key (fst x) ps1)
                          end
                        else
                          match val with
                          | None => lift (fn_index2 (fst v) (VStr key)) (fun w =>
-                                     nav ps v (VStr key) w (fun x ps1 => go r ((VStr key, fst x) :: acc) ps1))
+                                     nav ps v (VStr key) w (fun x ps1 => kk ((VStr key, fst x) :: acc, ps1)))
                          | Some _ => with_key (VStr key) ps
                          end
                    | [] =>
@@ -802,21 +839,25 @@ Definition step_eval_t (E : evals) (rho : env) (t : term) (v : tv) (ps : pst) (k
                        | Some (JString s None), _ =>
                            match val with
                            | None => lift (fn_index2 (fst v) (VStr s)) (fun w =>
-                                       nav ps v (VStr s) w (fun x ps1 => go r ((VStr s, fst x) :: acc) ps1))
+                                       nav ps v (VStr s) w (fun x ps1 => kk ((VStr s, fst x) :: acc, ps1)))
                            | Some _ => with_key (VStr s) ps
                            end
                        | Some js, _ =>
                            ev_string E rho js None v ps (fun kx ps1 =>
                              match val with
                              | None => lift (fn_index2 (fst v) (fst kx)) (fun w =>
-                                         nav ps1 v (fst kx) w (fun x ps2 => go r ((fst kx, fst x) :: acc) ps2))
+                                         nav ps1 v (fst kx) w (fun x ps2 => kk ((fst kx, fst x) :: acc, ps2)))
                              | Some _ => with_key (fst kx) ps1
                              end)
                        | None, Some q => ev_q E rho q v ps (fun kx ps1 => with_key (fst kx) ps1)
                        | None, None => skipM "malformed-object"
                        end
                    end
-               end) kvs [] ps
+              end) kvs ([], ps)
+              (fun st => match build_object (rev (fst st)) [] with
+                         | Some o => k (plain (VObj o)) (snd st)
+                         | None => raise (XErr O EObjectKeyNotString None)
+                         end)
           end
       | TArray None => k (plain (VArr [])) ps
       | TArray (Some q) =>
@@ -858,16 +899,12 @@ Definition step_eval_t (E : evals) (rho : env) (t : term) (v : tv) (ps : pst) (k
           end
       | TString s => ev_string E rho s None v ps k
       | TIf c th elifs el =>
-          (fix go (c th : query) (elifs : list (query * query)) : M unit :=
-             ev_q E rho c v None (fun x _ =>
-               if truthy (fst x) then ev_q E rho th v ps k
-               else match elifs with
-                    | (c2, t2) :: r => go c2 t2 r
-                    | [] => match el with
-                            | Some e => ev_q E rho e v ps k
-                            | None => k v ps
-                            end
-                    end)) c th elifs
+          if_chain (fun c kk => ev_q E rho c v None (fun x _ => kk (truthy (fst x))))
+                   (fun b => ev_q E rho b v ps k) c th elifs
+                   (match el with
+                    | Some e => ev_q E rho e v ps k
+                    | None => k v ps
+                    end)
       | TTry body handler =>
           try_catch (ev_q E rho body v ps (fun y ps' => down (k y ps')))
             (fun val =>
@@ -959,22 +996,17 @@ Definition step_call (E : evals) (rho : env) (name : bytes) (args : list query) 
            tracking *)
         let closures := fold_left (fun acc pa => BClos (strip_dollar (fst pa)) (snd pa) rho :: acc)
                                   (combine params args) defenv in
-        (fix go (l : list (bytes * query)) (benv : env) : M unit :=
-           match l with
-           | [] => ev_q E benv body v ps k
-           | (pname, a) :: r =>
-               if is_var_name pname
-               then ev_q E rho a v None (fun x _ => go r (BVar pname (plain (fst x)) :: benv))
-               else go r benv
-           end) (combine params args) closures
+        cps_fold (fun (pa : bytes * query) (benv : env) kk =>
+                    if is_var_name (fst pa)
+                    then ev_q E rho (snd pa) v None (fun x _ => kk (BVar (fst pa) (plain (fst x)) :: benv))
+                    else kk benv)
+                 (combine params args) closures (fun benv => ev_q E benv body v ps k)
     end in
   (* arguments of a native: closures run on the input, LAST argument first (outermost loop) *)
   let eval_args (qs : list query) (ps : pst) (kk : list jv -> pst -> M unit) : M unit :=
-    (fix go (rqs : list query) (acc : list jv) (ps : pst) : M unit :=
-       match rqs with
-       | [] => kk acc ps
-       | q :: r => ev_q E rho q v ps (fun x ps' => go r (fst x :: acc) ps')
-       end) (rev qs) [] ps in
+    cps_fold (fun (q : query) (st : list jv * pst) kk' =>
+                ev_q E rho q v (snd st) (fun x ps' => kk' (fst x :: fst st, ps')))
+             (rev qs) ([], ps) (fun st => kk (fst st) (snd st)) in
   let native (_ : unit) : M unit :=
     match args with
     | [] =>
@@ -1092,7 +1124,8 @@ Inductive ending :=
 | EndHalt (v : jv) (code : Z)
 | EndSkip (why : bytes).                     (* no verdict *)
 
-Definition init_state (capn : nat) (ins : list jv) (rs : bool) : sst := mkst [] O capn 0%N ins [] rs.
+Definition step_budget : N := 400000%N.
+Definition init_state (capn : nat) (ins : list jv) (rs : bool) : sst := mkst [] O capn 0%N ins [] rs step_budget.
 
 Definition observe (builtins : list funcdef) (fuel capn : nat) (rs : bool) (ins : list jv) (q : query) (v : jv)
   : list jv * ending :=
